@@ -6,6 +6,7 @@
 From Coq Require Import List ZArith NArith Bool Lia.
 Import ListNotations.
 From Sod.Model Require Import Base FieldIndex ObjIndex DB.
+From Sod.Proofs Require Import DBStruct1.
 
 Definition fvm (m : mem) := (st_async (m_set m), m_started m).
 
@@ -260,7 +261,11 @@ Qed.
 
 Lemma R_do_many hk ls s ms s1 r n : do_many hk ls s ms = (s1, r, n) -> R (s_h s) (s_h s1).
 Proof.
-  unfold do_many. intros H. destruct ms as [|[u fr o|] ms']; try (inversion H; apply R_refl).
+  intros H. destruct ms as [|[u fr o|] ms']; [inversion H; apply R_refl| |].
+  2: { destruct (many_other_first _ _ _ _ _ _ _ H) as [_ [[E|E] _]]; rewrite E; [apply R_refl|].
+       destruct (db_schema ls (s_h s) (w_disk (s_w s))) as [[h1 om] e] eqn:D.
+       destruct (R_db_schema _ _ _ _ _ _ D) as [G _]. exact G. }
+  unfold do_many in H.
   destruct (db_schema ls (s_h s) (w_disk (s_w s))) as [[h1 om] e] eqn:D.
   destruct (R_db_schema _ _ _ _ _ _ D) as [G P].
   destruct om as [m|], e as [x|]; try (inversion H; subst; exact G).
@@ -691,7 +696,8 @@ Qed.
 (* operations that only touch the world (fault arming, outside modifications of the directory) *)
 Definition world_op (o : op) : Prop :=
   match o with
-  | OFailAt _ | OCrashAt _ | XRmFile _ | XAddFile _ _ _ | XCorrupt _ | XRmSchema | XRmEntry _ | XStray _ | XStrayUuidDir _ => True
+  | OFailAt _ | OCrashAt _ | XRmFile _ | XAddFile _ _ _ | XCorrupt _ | XRmSchema | XRmEntry _ | XStray _ | XStrayUuidDir _
+  | XRmFieldEntry _ _ => True
   | _ => False
   end.
 
@@ -703,6 +709,8 @@ Proof.
   - destruct (d_schema (w_disk (s_w s))); reflexivity.
   - destruct (d_schema (w_disk (s_w s))) as [[sf|]|]; try reflexivity.
     destruct (uuid_oid (oi_ids (sf_idx sf)) u); reflexivity.
+  - destruct (d_schema (w_disk (s_w s))) as [[sf|]|]; try reflexivity.
+    destruct (uuid_oid (oi_ids (sf_idx sf)) u); [destruct (nth fld (oi_fx (sf_idx sf)) None)|]; reflexivity.
 Qed.
 
 (* the calls the theorem covers *)
